@@ -746,6 +746,18 @@ fn gen_name(spec: &SchemeSpec) -> Vec<u8> {
 
 fn gen_text(spec: &SchemeSpec, pool: &[MValue]) -> Vec<u8> {
     let mut t = gen_text_core(spec, pool);
+    if chance(1, 12, "text.nest") {
+        // nested to a depth around the limits a parser may have (the Rust API on the same text is the reference)
+        kernel::count("c20.deeply_nested_text");
+        let k = [1usize, 15, 16, 17, 31, 32, 33, 63, 64, 65, 127, 128, 129, 200][choose(14, "text.nest_k")];
+        let mut x = if chance(1, 2, "text.nest_kind") { b"(".repeat(k) } else { b"not ".repeat(k) };
+        let close = x.first() == Some(&b'(');
+        x.extend_from_slice(&t);
+        if close {
+            x.extend_from_slice(&b")".repeat(k));
+        }
+        t = x;
+    }
     // leading / trailing blanks and line breaks: positions in error messages are relative to the caller's text
     match choose_w(&[6, 1, 1, 1, 1], "text.blank") {
         1 => {
